@@ -471,6 +471,7 @@ func init() {
 		ID:    "C29",
 		Level: "exploration",
 		Rule: "seeded membership histories (as C10); before each valid pledge / accept / removal the validly certified forbidden variants are injected: pledge stamped in the mint or node-operation hours, pledge or removal on the chain of a non-elected member, acceptance outside hours 13-19 (the cluster clock is jumped to those instants); after every record all live nodes are asked for the elected operator of 4 operation types at record, +12 h, day and window boundaries (+-1 ns) and the answers are compared with each other and with the rig's own accepted-member model (never oldest, never newest, always a member); " +
+			"late histories also contain universal mints with their forbidden variants; half of the variants that join an open round are first announced as proposals in a real signing round run by the simulator for the chain's member (no real node may answer), and about half of the valid consensus operations are certified by the real nodes through such a round; " +
 			"non-trivial = at least one record and one forbidden variant; distinct = canonical-log digests",
 		Components: clusterComponents,
 		Assume:     append([]string{"membership sizes bounded by the rig (7-9 real + up to 24 key-only identities), days bounded by the history length"}, clusterAssume...),
@@ -483,6 +484,7 @@ func init() {
 		ID:    "C28",
 		Level: "exploration",
 		Rule: "seeded membership histories (as C10); before each valid pledge / removal the validly certified forbidden variants are injected through the finalization path: the operation batched with a deposit in one snapshot, a stale or missing consensus reference, a timestamp equal to or 1 ns before the last consensus operation; none may be stored anywhere; at the end every node's consensus records (timestamps strictly increasing, each operation alone in its snapshot and referencing its predecessor, forward pointers) and every multi-transaction snapshot (batchable classes only) are scanned; " +
+			"late histories also contain universal mints (batched with a deposit, stale reference); half of the variants are first announced as proposals in a real signing round run by the simulator (no real node may answer), and about half of the valid consensus operations are certified by the real nodes through such a round; " +
 			"non-trivial = at least one record and one forbidden variant; distinct = canonical-log digests. Proposal-path (announcement) rejection is exercised only through the validation shared with the finalization path.",
 		Components: clusterComponents,
 		Assume:     clusterAssume,
